@@ -424,6 +424,14 @@ func init() {
 		if y == nil || *y != *x {
 			return "C20/ipv6-roundtrip", fmt.Sprintf("NewIPv6FromString(%q) = %v, want %v", s, y, *x)
 		}
+		// lower-case groups without leading zeros (RFC 5952 4.1, 4.3), written independently of fmt
+		var gs []string
+		for _, g := range []uint16{x.A, x.B, x.C, x.D, x.E, x.F, x.G, x.H} {
+			gs = append(gs, strconv.FormatUint(uint64(g), 16))
+		}
+		if s != strings.Join(gs, ":") {
+			return "C20/ipv6-print", fmt.Sprintf("String() = %q, want %q", s, strings.Join(gs, ":"))
+		}
 		// the printed text is a standard (RFC 4291 2.2 form 1) text of the same address
 		if ad, err := netip.ParseAddr(s); err != nil || ad != v6addr(x) {
 			return "C20/ipv6-print", fmt.Sprintf("String() = %q is not a standard text of %v", s, v6addr(x))
